@@ -43,17 +43,29 @@ def env():
 
 
 def sh(cmd, timeout=600, cwd=None, extra_env=None, stdin=None):
-    """Run a shell command; returns (rc, combined output). rc 124 = timeout."""
+    """Run a shell command; returns (rc, combined output). rc 124 = timeout.
+    The command runs in its own process group; on timeout the WHOLE group is killed (a hung or
+    spinning harness must not survive the check that started it)."""
+    import signal
     e = env()
     if extra_env:
         e.update(extra_env)
+    p = subprocess.Popen(cmd, shell=isinstance(cmd, str), cwd=cwd, env=e, stdout=subprocess.PIPE,
+                         stderr=subprocess.STDOUT, stdin=subprocess.PIPE if stdin is not None else None,
+                         start_new_session=True)
     try:
-        p = subprocess.run(cmd, shell=isinstance(cmd, str), cwd=cwd, env=e, timeout=timeout,
-                           stdout=subprocess.PIPE, stderr=subprocess.STDOUT, input=stdin)
-        return p.returncode, p.stdout.decode("utf-8", "replace")
-    except subprocess.TimeoutExpired as ex:
-        out = ex.stdout.decode("utf-8", "replace") if ex.stdout else ""
-        return 124, out + "\n[timeout after %ss]" % timeout
+        out, _ = p.communicate(input=stdin, timeout=timeout)
+        return p.returncode, out.decode("utf-8", "replace")
+    except subprocess.TimeoutExpired:
+        try:
+            os.killpg(p.pid, signal.SIGKILL)
+        except OSError:
+            pass
+        try:
+            out, _ = p.communicate(timeout=10)
+        except Exception:
+            out = b""
+        return 124, (out or b"").decode("utf-8", "replace") + "\n[timeout after %ss: process group killed]" % timeout
 
 
 class BuildLock:
